@@ -176,9 +176,11 @@ class C02(Prop):
             return c02mv.mv_finding_key(case, v)
         big = max(exprs.max_abs_argument(case['tree'], float(xv), ('tanh',)) for xv in case['x'])
         tiny = min(exprs.min_abs_pow_base(case['tree'], float(xv)) for xv in case['x'])
+        inv = min(exprs.min_abs_argument(case['tree'], float(xv), ('arcsinh', 'arctanh', 'arctan', 'arcsin'))
+                  for xv in case['x'])
         return {'clause': v.clause, 'method': case['method'], 'n': case['n'],
                 'k_est': v.details.get('k_est'), 'ops': sorted(exprs.ops(case['tree'])),
-                'tanh_arg_over_300': bool(big > 300), 'pow_base_below_1e-15': bool(tiny < 1e-15), 'step_kind': case['step']['kind'],
+                'tanh_arg_over_300': bool(big > 300), 'pow_base_below_1e-15': bool(tiny < 1e-15), 'inverse_function_arg_below_1e-2': bool(inv < 1e-2), 'step_kind': case['step']['kind'],
                 'exception': v.details.get('exception')}
 
     def finalize(self, merged, tier):
